@@ -10,7 +10,7 @@ CONSTANTS
   CLens = {1, 3}
   MLens = {1, 2, 3, 5}
   AsBuilt = FALSE
-INVARIANTS WellFormed Retained Limit NoEarlyRoll NewestLast NoStuck
+INVARIANTS WellFormed NoGaps Retained Limit NoEarlyRoll NewestLast NoStuck
 PROPERTIES DropsOnlyOldest RestartPreserves
 VIEW MCView
 CHECK_DEADLOCK FALSE
